@@ -207,7 +207,7 @@ def spell(rng, no_space=False, suffix=""):
         s = "".join(rng.choice(NAME_ALPHABET) for _ in range(n))
         if no_space:
             s = s.replace(" ", "_")
-        if s in (".", "..") or s != s.strip() or s.startswith("~"):
+        if s in (".", "..") or s != s.strip():
             continue
         return s + suffix
 
@@ -220,6 +220,9 @@ def spelling(v, mode, rng):
     for d in ("T", "d1", "d2", "d3", "O"):
         while True:
             s = spell(rng, no_space=ns)
+            if rng.random() < 0.12:
+                # a tilde has no URL meaning and no meaning to ZConfig either: '~' and '~root' are directory names
+                s = rng.choice(["~", "~root", "~" + s])
             if s.lower() not in used:
                 used.add(s.lower())
                 sp[d] = s
